@@ -1,6 +1,7 @@
 import ButlerModel.Model.RegCache
 import ButlerModel.Model.Cache
 import ButlerModel.Gen.CachePy
+import ButlerModel.Gen.TogglePy
 /-! # C17 — the file cache stays within its configured bounds, and its bookkeeping is exact
 
 Theorems about `_expire_cache` (all four modes) and `CacheRegistry` for every registry content,
@@ -682,3 +683,101 @@ example :
 
 end C17.Translated
 
+/-! ### `_CacheToggle.enable`, translated (`Gen/TogglePy.lean`): once every caching context is left the cache is off
+
+A client's use of caching contexts is a sequence of events: a context is entered, or the innermost open context is left — normally,
+or because an exception is passing through it (which may be caught at any outer level, or not at all).  Python runs
+`tryBody ∘ beforeTry` on entry; on a normal exit `afterYield`, then the `finally` block, then the statements after the `try`;
+on an exceptional exit only the `finally` block. -/
+namespace C17.Toggle
+open Gen.TogglePy
+
+inductive Ev where
+  | enter
+  | leave (exc : Bool)
+  deriving DecidableEq, Repr
+
+def enter (s : St) : St := tryBody (beforeTry s)
+def leave (exc : Bool) (s : St) : St :=
+  if exc then finallyBlock s else afterTry (finallyBlock (afterYield s))
+def step (s : St) : Ev → St
+  | .enter => enter s
+  | .leave e => leave e s
+def run (s : St) (evs : List Ev) : St := evs.foldl step s
+
+/-- number of contexts open after the events, starting with `d` open ones; `none` when an event leaves a context that is not open -/
+def opens : Int → List Ev → Option Int
+  | d, [] => some d
+  | d, .enter :: r => opens (d + 1) r
+  | d, .leave _ :: r => if 0 < d then opens (d - 1) r else none
+
+/-- the counter is the number of open contexts, and the cache is on exactly while one is open -/
+def Inv (d : Int) (s : St) : Prop := s.depth = d ∧ 0 ≤ d ∧ (s.on = true ↔ 0 < d)
+
+theorem enter_inv (d : Int) (s : St) (h : Inv d s) : Inv (d + 1) (enter s) := by
+  obtain ⟨h1, h2, h3⟩ := h
+  simp only [Inv, enter, tryBody, beforeTry]
+  by_cases hc : s.depth + 1 = 1
+  · simp only [hc, beq_self_eq_true, if_true]
+    exact ⟨by omega, by omega, by simp; omega⟩
+  · have hb : (s.depth + 1 == 1) = false := by simpa using hc
+    have hon : s.on = true := h3.mpr (by omega)
+    simp only [hb, Bool.false_eq_true, if_false]
+    exact ⟨by omega, by omega, by simp [hon]; omega⟩
+
+theorem leave_inv (d : Int) (s : St) (e : Bool) (h : Inv d s) (hd : 0 < d) : Inv (d - 1) (leave e s) := by
+  obtain ⟨h1, h2, h3⟩ := h
+  have hon : s.on = true := h3.mpr hd
+  have key : Inv (d - 1) (finallyBlock s) := by
+    simp only [Inv, finallyBlock]
+    by_cases hc : s.depth - 1 = 0
+    · simp only [hc, beq_self_eq_true, if_true]
+      exact ⟨by omega, by omega, by simp; omega⟩
+    · have hb : (s.depth - 1 == 0) = false := by simpa using hc
+      simp only [hb, Bool.false_eq_true, if_false]
+      exact ⟨by omega, by omega, by simp [hon]; omega⟩
+  cases e
+  · simpa [leave, afterTry, afterYield] using key
+  · simpa [leave] using key
+
+/-- **Every reachable state**: after any sequence of events in which only open contexts are left — whatever mix of normal and
+exceptional exits — the counter equals the number of open contexts and the cache is on exactly while one is open. -/
+theorem run_inv (evs : List Ev) : ∀ (d : Int) (s : St) (d' : Int), Inv d s → opens d evs = some d' → Inv d' (run s evs) := by
+  induction evs with
+  | nil => intro d s d' h ho; simp only [opens, Option.some.injEq] at ho; subst ho; exact h
+  | cons ev r ih =>
+    intro d s d' h ho
+    cases ev with
+    | enter => exact ih (d + 1) (enter s) d' (enter_inv d s h) (by simpa [opens] using ho)
+    | leave e =>
+      simp only [opens] at ho
+      split at ho
+      · rename_i hd
+        exact ih (d - 1) (leave e s) d' (leave_inv d s e h hd) ho
+      · cases ho
+
+theorem init_inv : Inv 0 init := by simp [Inv, init]
+
+/-- **Once every caching context is left, the cache is off and the counter is back at zero** — also when some (or all) of the
+contexts were left by an exception, caught at whatever level. -/
+theorem all_left_cache_off (evs : List Ev) (h : opens 0 evs = some 0) : run init evs = init := by
+  obtain ⟨h1, _, h3⟩ := run_inv evs 0 init 0 init_inv h
+  have hoff : (run init evs).on = false := by
+    cases hb : (run init evs).on
+    · rfl
+    · exact absurd (h3.mp hb) (by omega)
+  cases hs : run init evs with
+  | mk dp o =>
+    rw [hs] at h1 hoff
+    simp only at h1 hoff
+    simp [init, h1, hoff]
+
+/-- … and while a context is open the cache is on (the cache is what the context is for) -/
+theorem open_cache_on (evs : List Ev) (d : Int) (h : opens 0 evs = some d) (hd : 0 < d) : (run init evs).on = true :=
+  (run_inv evs 0 init d init_inv h).2.2.mpr hd
+
+/-- non-vacuity: a nested context fails, the exception is caught inside the outer one, which then ends normally -/
+example : opens 0 [.enter, .enter, .leave true, .leave false] = some 0 ∧
+    run init [.enter, .enter, .leave true] = ⟨1, true⟩ := by decide
+
+end C17.Toggle
